@@ -4,6 +4,7 @@ import (
 	"encoding/json"
 	"fmt"
 	"math/rand"
+	"net/url"
 	"strings"
 )
 
@@ -145,6 +146,7 @@ func runC04(r *Report, rng *rand.Rand, thorough bool) {
 		k = 40
 	}
 	obs := runParamRoundTrips(r, rng, lab, cells, k, true)
+	runC04Escape(r, rng, thorough)
 	dcases := NewCases("cases_C04_decode", "From V Require Import Model.OasTable Corr.Eval.", "location * option style * option bool * string * shape * wire * value", "mismatches_decode")
 	defer dcases.WriteTo(r)
 	nd := 0
@@ -364,4 +366,70 @@ func wireQuery(r *LabResult) string {
 		}
 	}
 	return q
+}
+
+// runC04Escape ties Model/Escape.v to net/url: what the generated clients call to escape a value (one path segment, one
+// query component) and what the wrappers / the runtime call to unescape it, on byte strings of every class.
+func runC04Escape(r *Report, rng *rand.Rand, thorough bool) {
+	nl := func(b []byte) string {
+		parts := make([]string, len(b))
+		for i, c := range b {
+			parts[i] = fmt.Sprintf("%d%%N", c)
+		}
+		return "[" + strings.Join(parts, "; ") + "]"
+	}
+	opt := func(s string, err error) string {
+		if err != nil {
+			return "None"
+		}
+		return "(Some " + nl([]byte(s)) + ")"
+	}
+	ecases := NewCases("cases_C04_escape", "From Coq Require Import NArith.\nFrom V Require Import Model.Escape Corr.Eval.", "list N * list N * list N", "mismatches_escape")
+	ucases := NewCases("cases_C04_unescape", "From Coq Require Import NArith.\nFrom V Require Import Model.Escape Corr.Eval.", "list N * option (list N) * option (list N)", "mismatches_unescape")
+	defer ecases.WriteTo(r)
+	defer ucases.WriteTo(r)
+	n := 300
+	if thorough {
+		n = 4000
+	}
+	// every single byte first, then random strings over a pool that favours the reserved characters
+	pool := []byte("abcXYZ019-_.~ /?#:@!$&'()*+,;=%[]{}|\\\"<>^`\x00\x7f\x80\xc3\xa9\xe6\x97\xa5\xff")
+	var inputs [][]byte
+	for b := 0; b < 256; b++ {
+		inputs = append(inputs, []byte{byte(b)})
+	}
+	for i := 0; i < n; i++ {
+		l := rng.Intn(9)
+		s := make([]byte, l)
+		for j := range s {
+			s[j] = pool[rng.Intn(len(pool))]
+		}
+		inputs = append(inputs, s)
+	}
+	for _, s := range inputs {
+		pe, qe := url.PathEscape(string(s)), url.QueryEscape(string(s))
+		r.Count("escape/"+string(s), len(s) > 0 && (pe != string(s) || qe != string(s)))
+		r.Dist["escape-model-tie"]++
+		ecases.Add(fmt.Sprintf("(%s, %s, %s)", nl(s), nl([]byte(pe)), nl([]byte(qe))), map[string]any{"bytes": s})
+		// the statement on the implementation: both round trips are the identity
+		if back, err := url.PathUnescape(pe); err != nil || back != string(s) {
+			r.Violate("path_escape_round_trip", fmt.Sprintf("PathUnescape(PathEscape(%q)) = %q, %v", s, back, err), map[string]any{"bytes": s})
+		}
+		if back, err := url.QueryUnescape(qe); err != nil || back != string(s) {
+			r.Violate("query_escape_round_trip", fmt.Sprintf("QueryUnescape(QueryEscape(%q)) = %q, %v", s, back, err), map[string]any{"bytes": s})
+		}
+	}
+	// the decoders on arbitrary text, well-formed or not (truncated and non-hex escapes are errors)
+	upool := []byte("ab%%%2F2fG0+ ~/")
+	for i := 0; i < n; i++ {
+		l := rng.Intn(8)
+		s := make([]byte, l)
+		for j := range s {
+			s[j] = upool[rng.Intn(len(upool))]
+		}
+		pu, perr := url.PathUnescape(string(s))
+		qu, qerr := url.QueryUnescape(string(s))
+		r.Count("unescape/"+string(s), perr != nil || pu != string(s))
+		ucases.Add(fmt.Sprintf("(%s, %s, %s)", nl(s), opt(pu, perr), opt(qu, qerr)), map[string]any{"text": string(s)})
+	}
 }
